@@ -8,6 +8,8 @@ import (
 	"os"
 	"strings"
 	"syscall"
+
+	"github.com/emirpasic/gods/v2/containers"
 )
 
 // ---------- fd capture (sane bit 5) ----------
@@ -89,11 +91,11 @@ func (d *drv) observe(lvl int, fdDirty bool, seq int) []VLine {
 	size := d.c.Size()
 
 	bits := [8]bool{true, true, true, true, true, true, true, true}
+	// the expensive checks are sampled for big containers at lvl 0
+	heavy := lvl >= 1 || size <= bigSize || seq%64 == 0
 	// 1: internal links
 	bits[0] = d.links()
-	// the serialisation / String bits are quadratic for some kinds: at lvl 0 and for big
-	// containers they are checked only every 64th observation
-	heavy := lvl >= 1 || size <= bigSize || seq%64 == 0
+	// the serialisation / String bits are quadratic for some kinds: sampled as well
 	var js []byte
 	var jerr error
 	if heavy {
@@ -115,6 +117,14 @@ func (d *drv) observe(lvl int, fdDirty bool, seq int) []VLine {
 		if isKVKind(k) {
 			ok8 = ok8 && len(d.keys()) == size
 		}
+	}
+	// ... the node-level accessors of the trees agree with Get / the iterator, and an iterator kept across the
+	// operations, once rewound, walks like a fresh one
+	if ok8 && d.nodeAPI != nil {
+		ok8 = d.nodeAPI()
+	}
+	if ok8 && heavy {
+		ok8 = d.keptIteratorOK(size+2, seq)
 	}
 	bits[7] = ok8
 	// 7: JSON reload (lvl 1 only)
@@ -140,7 +150,10 @@ func (d *drv) observe(lvl int, fdDirty bool, seq int) []VLine {
 			}
 		}
 	}
-	// 6: observers did not change the deep state
+	// 6: observers did not change the deep state (containers.GetSortedValues is an observer too)
+	if heavy {
+		containers.GetSortedValues[int](d.c)
+	}
 	bits[5] = fp0 == d.fingerprint()
 
 	items := make([]string, 8)
